@@ -184,6 +184,23 @@ def lit_specs(tier, seed):
                         yield [form, body, em, fr]
                 else:
                     yield [form, body, 'unset', fr]
+    # boundary bodies the 24 class representatives cannot spell: every 1-3 digit octal escape, every 1-2 digit hex escape,
+    # escapes followed by a digit, defaults containing ':' '-' '}' look-alikes
+    BOUND = []
+    for d in range(0, 0o1000):
+        for spell in {'%o' % d, '%02o' % d, '%03o' % d}:
+            if len(spell) <= 3:
+                BOUND.append('\\' + spell)
+                BOUND.append('a\\' + spell + 'z')
+    for d in range(256):
+        BOUND += ['\\x%x' % d, '\\x%02X' % d, '\\x%02xf' % d]
+    BOUND += ['${a:-x:y}', '${n:-:}', '${a:-x:-y}', '${n:-a:b:c}', 'p${a:-q:r}s', '${n:--}', '${n:-}', '${a:}', '${a:x}', '${:-d}', '${a:-d${n}', '${n:-"}', "${n:-'}",
+              '\\8', '\\9', '\\08', '\\1234', '\\400', '\\377', '\\376', '\\3777', '\\xg', '\\x', '\\xfff', '\\e\\v\\b\\f\\a\\r', '\\E', '\\N', '\\0', '\\00', '\\000', '\\x0', '\\x00']
+    for body in BOUND:
+        for form in ('dq', 'sq', 'uq'):
+            fr = zlib.crc32((form + body).encode('latin-1')) % FRAMES
+            for em in (('unset', 'set', 'empty', 'meta') if '${' in body else ('unset',)):
+                yield [form, body, em, fr]
     rng = core.seeded_rng(seed, 'c03')
     nrand = 40000 if tier == 'quick' else 600000
     weights = CLASSES + ['\\', '\\', '$', '{', '}', '0', '7', 'x']
